@@ -43,20 +43,22 @@ type walCase struct {
 }
 
 type walResult struct {
-	ID      int            `json:"id"`
-	OK      bool           `json:"ok"`
-	Detail  string         `json:"detail,omitempty"`
-	Infra   string         `json:"infra,omitempty"`
-	Images  int            `json:"images"`
-	Nested  int            `json:"nested"`
-	Torn    int            `json:"torn"`
-	Events  int            `json:"events"`
-	Known   map[string]int `json:"known,omitempty"`
-	KnownEx string         `json:"known_example,omitempty"`
-	Trace   []crashfs.Event `json:"trace,omitempty"`
-	At      int            `json:"at,omitempty"`
-	Hang    bool           `json:"hang,omitempty"`
-	IndexInconclusive int  `json:"index_inconclusive"`
+	ID                int                      `json:"id"`
+	OK                bool                     `json:"ok"`
+	Detail            string                   `json:"detail,omitempty"`
+	Infra             string                   `json:"infra,omitempty"`
+	Images            int                      `json:"images"`
+	Nested            int                      `json:"nested"`
+	Torn              int                      `json:"torn"`
+	Events            int                      `json:"events"`
+	Known             map[string]int           `json:"known,omitempty"`
+	KnownEx           string                   `json:"known_example,omitempty"`
+	Trace             []crashfs.Event          `json:"trace,omitempty"`
+	At                int                      `json:"at,omitempty"`
+	Hang              bool                     `json:"hang,omitempty"`
+	IndexInconclusive int                      `json:"index_inconclusive"`
+	Parts             int                      `json:"parts"`
+	Tev               []map[string]interface{} `json:"tev,omitempty"` // spec-level event trace of the run (Mode C)
 }
 
 // a cell of the specification = (measurement, series, timestamp, field) of the real store
@@ -363,6 +365,7 @@ func (r *walRunner) known(id, example string) {
 
 func runWalCase(c *walCase, root string) (res walResult) {
 	res = walResult{ID: c.ID, OK: true}
+	defer func() { res.Parts = c.Parts }()
 	defer func() {
 		if x := recover(); x != nil {
 			res.OK = false
@@ -375,6 +378,7 @@ func runWalCase(c *walCase, root string) (res walResult) {
 	if r.parts == 0 {
 		r.parts = 1 + rng.Intn(3)
 	}
+	c.Parts = r.parts
 	cm := cellMaps[rng.Intn(len(cellMaps))]
 	r.cells = map[string]cellConc{}
 	keys := map[string]bool{}
@@ -435,6 +439,21 @@ func runWalCase(c *walCase, root string) (res walResult) {
 		if ev.Class == "wal" && ev.Op == "write" && curStep >= 0 && c.Hist[curStep].A == "Write" {
 			stepOfWalWrite[ev.N] = curStep
 		}
+		// Mode C: classify the mutation as a specification action
+		switch {
+		case ev.Class == "wal" && ev.Op == "write":
+			if part, _, ok := walPartOf(ev.Path); ok {
+				res.Tev = append(res.Tev, map[string]interface{}{"ev": "WriteWal", "p": part + 1})
+			}
+		case ev.Class == "wal" && ev.Op == "remove":
+			if part, _, ok := walPartOf(ev.Path); ok {
+				res.Tev = append(res.Tev, map[string]interface{}{"ev": "FlushRemoveWal", "p": part + 1})
+			}
+		case ev.Class == "init" && ev.Op == "create":
+			res.Tev = append(res.Tev, map[string]interface{}{"ev": "FlushInit"})
+		case ev.Op == "rename" && (ev.Class == "init" || ev.Class == "tssp"):
+			res.Tev = append(res.Tev, map[string]interface{}{"ev": "FlushRename"})
+		}
 		if ev.Op == "rename" && curStep >= 0 && c.Hist[curStep].A == "Flush" {
 			flushRenames[curStep] = append(flushRenames[curStep], ev.N)
 		}
@@ -458,18 +477,22 @@ func runWalCase(c *walCase, root string) (res walResult) {
 		switch st.A {
 		case "Write":
 			inflight = true
+			res.Tev = append(res.Tev, map[string]interface{}{"ev": "WriteMem", "k": st.K})
 			cc := r.cells[st.K]
 			if err := e.Write([]engx.Pt{r.point(st.K, st.W)}); err != nil {
 				res.Infra = "write: " + err.Error()
 				return
 			}
 			inflight = false
+			res.Tev = append(res.Tev, map[string]interface{}{"ev": "Ack"})
 			if !seenSeries[cc.mst+"/"+cc.host] {
 				seenSeries[cc.mst+"/"+cc.host] = true
 				e.IndexFlush()
 			}
 		case "Flush":
+			res.Tev = append(res.Tev, map[string]interface{}{"ev": "FlushSwitch"})
 			e.Flush()
+			res.Tev = append(res.Tev, map[string]interface{}{"ev": "FlushEnd"})
 		}
 	}
 	curStep = len(c.Hist) // everything acknowledged
@@ -567,20 +590,18 @@ func runWalCase(c *walCase, root string) (res walResult) {
 			}
 		}
 		if !ok {
-			pred, stale := r.predictAsImplemented(events, stepOfWalWrite, flushRenames, img.at, tornDrop)
-			if equalTables(got, pred) && r.parts >= 1 {
+			files, order := r.walFilesAt(events, stepOfWalWrite, img.at, tornDrop)
+			cm := r.committedUpTo(flushRenames, img.at)
+			pred, stale := r.rrReplay(files, order, r.expAfter(cm), cm)
+			ideal := r.idealReplay(files, r.expAfter(cm), cm)
+			if equalTables(got, pred) && inTables(ideal, accept) && (stale || r.parts >= 2) {
 				id := "F-C01-1"
 				if stale {
 					id = "F-C01-2"
 				}
-				if id == "F-C01-1" && r.parts == 1 {
-					r.fail("%s: recovered %v, acceptable %v (matches the replay model although there is one partition)", label, got, accept)
-					res.At = img.at
-					return
-				}
 				r.known(id, fmt.Sprintf("%s parts=%d: recovered {%v}; acknowledged order gives {%v}", label, r.parts, got, accept[len(accept)-1]))
 			} else {
-				r.fail("%s parts=%d cells=%v: recovered {%v}, acceptable %v, as-implemented model predicts {%v}", label, r.parts, r.cells, got, accept, pred)
+				r.fail("%s parts=%d cells=%v: recovered {%v}, acceptable %v, as-implemented model predicts {%v}, order/staleness-repaired model {%v}", label, r.parts, r.cells, got, accept, pred, ideal)
 				res.At = img.at
 				return
 			}
@@ -612,8 +633,8 @@ func runWalCase(c *walCase, root string) (res walResult) {
 					ok3 = true
 				}
 			}
-			if ok3 {
-				continue
+			if ok3 || equalTables(got3, got) {
+				continue // acceptable, or identical to what the first recovery gave (judged above)
 			}
 			// as-implemented model of a crash inside recovery: the log files not yet removed are
 			// replayed again (one per partition in turn) on top of what is committed by then
@@ -637,7 +658,8 @@ func runWalCase(c *walCase, root string) (res walResult) {
 				c = len(r.c.Hist)
 			}
 			pred3, stale3 := r.rrReplay(files, order, base, c)
-			if equalTables(got3, pred3) {
+			ideal3 := r.idealReplay(files, base, c)
+			if equalTables(got3, pred3) && inTables(ideal3, accept) && (stale3 || r.parts >= 2) {
 				id := "F-C01-1"
 				if stale3 {
 					id = "F-C01-2"
